@@ -34,6 +34,7 @@ func AssertExcept(c bool, label, finding string, signature bool)  {}
 func Try(f func()) (panicked bool, msg string)                    { return false, "" }
 func Override(target string, fn any)                              {}
 func Observe(label string, v any)                                 {}
+func ExitAfterCase()                                              {}
 
 // file-system model (C18); see engine/sym/fs.go
 func FSPath(name string) string              { return name }
